@@ -104,11 +104,11 @@ func TestWriteReplays(t *testing.T) {
 		Outcomes: []Outcome{{}, {}, {}, {}, {}, {}}})
 	// 4. shutdown inside attempt 1, whose failure asks for a 10s wait
 	write("04-shutdown-in-wait.json", "retry-policy", Script{Signal: sig.Logs, Payload: full, Backoff: bo, TimeoutMS: 20,
-		Outcomes: []Outcome{{}, {Throttle: true, ThrottleUS: 10_000_000}, {OK: true}},
+		Outcomes: []Outcome{{}, {Throttle: true, ThrottleUS: 3_600_000_000}, {OK: true}},
 		Stop:     &Stop{Kind: "shutdown", Mode: "wait", At: 1, DelayUS: 500}})
 	// 5. persistent queue: shutdown during the wait after a partial failure; next incarnation must redeliver
 	write("05-persist-shutdown-in-wait.json", "shutdown-persist", PScript{Script: Script{Signal: sig.Logs, Payload: full, Backoff: bo,
-		Outcomes: []Outcome{{Partial: true, Remaining: rem2}, {Throttle: true, ThrottleUS: 10_000_000}},
+		Outcomes: []Outcome{{Partial: true, Remaining: rem2}, {Throttle: true, ThrottleUS: 3_600_000_000}},
 		Stop:     &Stop{Kind: "shutdown", Mode: "wait", At: 1, DelayUS: 300}}})
 	// 7. far request deadline (must keep retrying) with a per-attempt timeout that expires twice
 	write("07-far-deadline-attempt-timeouts.json", "retry-policy", Script{Signal: sig.Logs, Payload: full, Backoff: bo, TimeoutMS: 8, DeadlineMS: 60000,
@@ -119,11 +119,11 @@ func TestWriteReplays(t *testing.T) {
 		Outcomes: []Outcome{{}, {}, {}, {}, {}, {}}})
 	// 9. persistent queue + batcher max_size 2: part {1,2} fails permanently, part {3,4} is parked when Shutdown arrives
 	write("09-split-permanent-then-parked.json", "shutdown-persist-split", SScript{Signal: sig.Logs, Payload: full, Backoff: bo, MaxSize: 2,
-		Fates: []Fate{{Kind: "perm", Wrap: 1}, {Kind: "ok"}, {Kind: "park", ThrottleUS: 10_000_000}, {Kind: "ok"}}, DelayUS: 300})
+		Fates: []Fate{{Kind: "perm", Wrap: 1}, {Kind: "ok"}, {Kind: "park", ThrottleUS: 3_600_000_000}, {Kind: "ok"}}, DelayUS: 300})
 	// 10. same, the earlier part exhausts max_elapsed_time instead; a third part is tried once while draining
 	write("10-split-exhausted-then-parked.json", "shutdown-persist-split", SScript{Signal: sig.Logs, Payload: logsPayload(6), MaxSize: 2,
-		Backoff: Backoff{Enabled: true, InitialUS: 2000, MultX100: 200, RandX100: 0, MaxIntUS: 16000, MaxElapsedMS: 60000},
-		Fates:   []Fate{{Kind: "ok"}, {Kind: "exhaust"}, {Kind: "park", ThrottleUS: 10_000_000}, {Kind: "ok"}, {Kind: "flaky", K: 1}, {Kind: "ok"}}, LingerUS: 500})
+		Backoff: Backoff{Enabled: true, InitialUS: 2000, MultX100: 200, RandX100: 0, MaxIntUS: 16000, MaxElapsedMS: farMS},
+		Fates:   []Fate{{Kind: "ok"}, {Kind: "exhaust"}, {Kind: "park", ThrottleUS: 3_600_000_000}, {Kind: "ok"}, {Kind: "flaky", K: 1}, {Kind: "ok"}}, LingerUS: 500})
 	// 11/12. near request deadline behind a wait_for_result queue / the legacy batcher: the deadline must still reach the retry sender
 	for name, q := range map[string]string{"11-near-deadline-wait-for-result-queue.json": "wfr", "12-near-deadline-legacy-batcher.json": "batcher"} {
 		write(name, "retry-policy", Script{Signal: sig.Logs, Payload: full, DeadlineMS: 25, Queue: q, TimeoutMS: 40,
@@ -136,7 +136,7 @@ func TestWriteReplays(t *testing.T) {
 		Outcomes: []Outcome{{}, {Partial: true, Remaining: rem2}, {}, {OK: true}}})
 	// 14. two consumers: one request parked in its back-off, a second one inside an attempt that succeeds 5ms after Shutdown was called
 	write("14-persist-second-request-in-attempt.json", "shutdown-persist", PScript{Script: Script{Signal: sig.Logs, Payload: full, Backoff: bo,
-		Outcomes: []Outcome{{}, {Throttle: true, ThrottleUS: 10_000_000}},
+		Outcomes: []Outcome{{}, {Throttle: true, ThrottleUS: 3_600_000_000}},
 		Stop:     &Stop{Kind: "shutdown", Mode: "wait", At: 1, DelayUS: 300}},
 		Companion: &Companion{Payload: companionLogs(), Outcome: "ok", ReleaseUS: 5000}})
 	// 6. persistent queue control: permanent error, clean shutdown, nothing may come back
